@@ -1,10 +1,11 @@
-\* exhaustive: chains of 1..4 steps, 1..3 requested objects, 7 hook outcomes per step (<= 1 count-changing step), 5 rule-declaration variants
+\* exhaustive: chains of 1..4 steps, 1..3 requested objects, 8 hook outcomes per step (<= 1 count-changing step), 5 rule-declaration variants
 SPECIFICATION Spec
 CONSTANTS
   MaxLen = 4
   Counts = {1, 2, 3}
-  Kinds = {"exit1", "empty", "malformed", "failmsg", "ok", "drop", "extra"}
+  Kinds = {"exit1", "empty", "malformed", "failmsg", "failobj", "ok", "drop", "extra"}
   Variants = {"ff", "ss", "mixed", "ff+d", "mixed+d"}
+  Layouts = {"perhook", "split"}
   Reach = {TRUE, FALSE}
   FixFailMsg = TRUE
   FixCount = TRUE
